@@ -18,11 +18,7 @@ hits, errs = {}, {}
 for prop in sorted(props.PROPS):
     try:
         results = check.run_rules(prop, F, "quick")
-        for r in results:
-            for name, n in list(r.counts.items()) + [("#obligations", r.obligations)]:
-                key = "%s:%s.%s" % (prop, r.rule, name)
-                if key in fl and n < fl[key]:
-                    raise CheckError("below floor: %s = %d < %d" % (key, n, fl[key]))
+        deferred = check.closed_failures(prop, results)
     except CheckError as e:
         errs[prop] = str(e)[:300]
         continue
@@ -38,4 +34,6 @@ for prop in sorted(props.PROPS):
             vs.append(v.full_key())
     if vs:
         hits[prop] = sorted(set(vs))[:6]
+    elif deferred:
+        errs[prop] = deferred[0][:300]
 print(json.dumps({"hits": hits, "errors": errs}))
